@@ -840,6 +840,18 @@ fn ranges_for(rng: &mut Rng, pts: &[u64]) -> Vec<Range> {
             v.push((Bound::Unbounded, mk(i as u64 % 2, a)));
             v.push((mk(i as u64 % 2, a), Bound::Unbounded));
         }
+        // bounds a multiple of 2^32 (and of 2^16) away from a point of interest: distances must not be narrowed
+        if i < 3 {
+            for (k, step) in [1u64 << 32, 1 << 33, 1 << 16, (1 << 32) + 2].iter().enumerate() {
+                if let Some(far) = p.checked_add(*step) {
+                    v.push((mk(k as u64 % 2, far), Bound::Unbounded));
+                    v.push((mk(k as u64 % 2, far), mk((k as u64 + 1) % 2, far.saturating_add(9))));
+                }
+                if let Some(near) = p.checked_sub(*step) {
+                    v.push((Bound::Unbounded, mk(k as u64 % 2, near)));
+                }
+            }
+        }
     }
     v
 }
@@ -1017,6 +1029,32 @@ fn chk_foreign_rewrite(mode: &str, bytes: &[u8]) -> Result<(), String> {
     if x != y {
         let pos = x.iter().zip(y.iter()).position(|(p, q)| p != q).unwrap_or(x.len().min(y.len()));
         return Err(format!("a reader-backed archive and an in-memory archive with the same content serialise differently ({} vs {} bytes, first difference at {pos})", x.len(), y.len()));
+    }
+    Ok(())
+}
+/// an archive opened with a range filter and saved: the bytes are those of an in-memory archive holding exactly the
+/// tiles the specification-level reader finds inside the range
+fn chk_partial_rewrite(mode: &str, rg: Range, bytes: &[u8]) -> Result<(), String> {
+    let asy = mode == "async";
+    let v = spec::parse(bytes, false).map_err(|e| format!("harness: archive invalid: {e}"))?;
+    let st = reopen(asy, bytes.to_vec(), rg)?;
+    let tok = hdr_tok(&st);
+    let f: Vec<&str> = tok[1..].split(':').collect();
+    let mut ops: Vec<String> = vec![
+        format!("h:{}:{}:{}:{}:{}:{}", f[0], f[1], f[3], f[4], f[5], f[6..12].join(":")),
+        format!("c:{}", ["unknown", "none", "gzip", "brotli", "zstd"][unhex_u64(f[2]) as usize % 5]),
+        format!("m:{}", f[12]),
+    ];
+    for (id, ol) in spec::all_tiles(&v, 1_000_000)? {
+        if std::ops::RangeBounds::contains(&rg, &id) {
+            ops.push(format!("a:{id:x}:{}", hex_bytes(spec::tile_bytes(bytes, &v.header, ol)?)));
+        }
+    }
+    let x = write_bytes(st)?;
+    let y = run_to_bytes(mode, &ops.join(";"))?;
+    if x != y {
+        let pos = x.iter().zip(y.iter()).position(|(p, q)| p != q).unwrap_or(x.len().min(y.len()));
+        return Err(format!("an archive opened with the range {} and saved differs from an in-memory archive with the tiles of that range ({} vs {} bytes, first difference at {pos})", range_tok(&rg), x.len(), y.len()));
     }
     Ok(())
 }
@@ -1956,6 +1994,26 @@ pub fn gen(prop: &str, rng: &mut Rng, quick: bool, st: &mut Stats) -> Option<Vec
                 c.push(format!("chk_foreign_rewrite {} {}", if k % 2 == 0 { "sync" } else { "async" }, hex_bytes(&f.bytes)));
                 st.bump("foreign_vs_rebuilt");
             }
+            // opened with a range filter (every kind of bound at tile ids and next to them), then saved
+            for k in 0..(if quick { 6 } else { 40 }) {
+                let mut o = foreign_opts(rng, k + 5, true);
+                o.n = 8 + 5 * (k % 4);
+                o.unordered = k % 2 == 0;
+                let f = gen_foreign(rng, &o, st);
+                let ids: Vec<u64> = f.tiles.keys().copied().collect();
+                if ids.len() < 3 {
+                    continue;
+                }
+                let (a, b) = (ids[ids.len() / 3], ids[2 * ids.len() / 3]);
+                let hexb = hex_bytes(&f.bytes);
+                for (j, rg) in [
+                    (Bound::Excluded(a), Bound::Unbounded), (Bound::Included(a), Bound::Excluded(b)), (Bound::Excluded(a), Bound::Included(b)),
+                    (Bound::Unbounded, Bound::Excluded(b)), (Bound::Excluded(a), Bound::Excluded(a + 1)), (Bound::Excluded(a.saturating_sub(1)), Bound::Included(a)),
+                ].iter().enumerate() {
+                    c.push(format!("chk_partial_rewrite {} {} {hexb}", if (k + j) % 2 == 0 { "sync" } else { "async" }, range_tok(rg)));
+                    st.bump("partial_open_then_save");
+                }
+            }
             // the bytes do not depend on where in the stream they are written (root directory close to its limit,
             // and positions beyond 16 KiB)
             for (k, (n, p)) in [(4063usize, 64u64), (4064, 1), (4063, 20_000), (30, 16_384), (30, 70_000), (0, 16_300)].iter().enumerate() {
@@ -2060,6 +2118,10 @@ pub fn run_chk(toks: &[&str]) -> Option<String> {
         ["chk_many_contents", mode, n] => {
             let n = unhex_u64(n);
             guard_chk(|| chk_many_contents(mode, n))
+        }
+        ["chk_partial_rewrite", mode, rg, b] => {
+            let (rg, b) = (parse_range(rg), unhex_bytes(b));
+            guard_chk(|| chk_partial_rewrite(mode, rg, &b))
         }
         ["chk_dedup", mode, ops] => guard_chk(|| chk_dedup(mode, ops)),
         ["chk_dedup_run", mode, n] => {
